@@ -181,6 +181,7 @@ func (b *bgen) bschema(from string, depth int, refP float64) M {
 func (b *bgen) refFreeSchema(depth int) M { return b.bschema("", depth, 0) }
 
 type BundleOpts struct {
+	Plain    bool // only names that need neither JSON-pointer nor URL escaping
 	Plus     bool
 	AnonOK   bool
 	SharedOK bool
@@ -190,6 +191,12 @@ type BundleOpts struct {
 func genBundle(g *Gen, o BundleOpts) *Bundle {
 	b := &bgen{Gen: g, plus: o.Plus, anonOK: o.AnonOK, sharedOK: o.SharedOK, auxDefs: map[string][]string{}, rootProps: map[string][]string{}}
 	g.Names = []string{"name", "id", "owner", "a b", "x/y", "t~x", "q?x", "items", "properties", "日本", "tag", "value", "n_1", "Kind"}
+	rootPool := rootNamePool
+	if o.Plain {
+		g.Names = []string{"name", "id", "owner", "items", "properties", "tag", "value", "n_1", "Kind", "petOwner"}
+		rootPool = []string{"pet", "owner", "Record", "tagValue", "n-1", "PetOwner", "thing", "order"}
+		g.hit("names:plain")
+	}
 	// layout
 	nAux := g.n(o.MaxAux + 1)
 	perm := g.r.Perm(len(auxPathPool))
@@ -206,7 +213,7 @@ func genBundle(g *Gen, o BundleOpts) *Bundle {
 		sort.Strings(out)
 		return out
 	}
-	b.rootDefs = pickNames(rootNamePool, 1+g.n(5))
+	b.rootDefs = pickNames(rootPool, 1+g.n(5))
 	used := map[string]bool{}
 	for _, ap := range b.auxPaths {
 		var names []string
@@ -278,7 +285,7 @@ func genBundle(g *Gen, o BundleOpts) *Bundle {
 		ap := b.auxPaths[0]
 		rn := b.rootDefs[g.n(len(b.rootDefs))]
 		cn := rn
-		if g.p(0.5) {
+		if g.p(0.5) && rn[0] >= 'a' && rn[0] <= 'z' {
 			cn = strings.ToUpper(rn[:1]) + rn[1:]
 			g.hit("collide:case")
 		} else {
@@ -319,7 +326,7 @@ func genBundle(g *Gen, o BundleOpts) *Bundle {
 	// paths
 	paths := M{}
 	ids := &idPool{used: map[string]bool{}}
-	pathPoolW := []string{"/pets", "/pets/{id}", "/a", "/users/{user id}/tags", "/x~y", "/q"}
+	pathPoolW := []string{"/pets", "/pets/{id}", "/a", "/users/{user id}/tags", "/x~y", "/q", "/a-b", "/a_b"}
 	for i, n := 0, 1+g.n(3); i < n; i++ {
 		pth := pathPoolW[g.n(len(pathPoolW))]
 		if _, dup := paths[pth]; dup {
@@ -334,7 +341,11 @@ func genBundle(g *Gen, o BundleOpts) *Bundle {
 			// ids: unique; id-less operations only on distinct derived keys (see D10)
 			id := fmt.Sprintf("%s%s%d", g.pick([]string{"get", "list", "create"}), g.pick([]string{"Pet", "User", "Thing"}), ids.n)
 			ids.n++
-			op["operationId"] = id
+			if g.p(0.85) {
+				op["operationId"] = id
+			} else {
+				g.hit("op:noid")
+			}
 			var ps []any
 			if g.p(0.5) {
 				if len(params) > 0 && g.p(0.4) {
